@@ -1,23 +1,32 @@
 #!/bin/sh
-# usage: run_seeded.sh [id ...]   - apply each stored seeded change to /repo's working tree, run the property's check (and, where
-# meta.json names another property under "also_check", that one too), record the outcome in seeded/RESULTS.txt, and restore /repo.
-# Never run while another check is running: it edits /repo's working tree.
+# usage: run_seeded.sh [id ...]   - apply each stored seeded change to a SCRATCH worktree of /repo (never to /repo itself), run the
+# property's check against it (PGVERIF_REPO), and, where meta.json names other properties under "also_check", those too; record
+# the outcomes in seeded/RESULTS.txt.  Evidence written by these runs goes to a scratch directory, not to /verif/evidence.
 cd /verif || exit 2
-if [ -n "$(git -C /repo status --short)" ]; then echo "/repo working tree is not clean"; exit 2; fi
+W=${TMPDIR:-/var/tmp}/pgverif-seeded-wt.$$
+E=${TMPDIR:-/var/tmp}/pgverif-seeded-ev.$$
+git -C /repo worktree add -q --detach "$W" HEAD || exit 2
+mkdir -p "$E"
 ids="$*"; [ -z "$ids" ] && ids=$(ls seeded | grep -v RESULTS | sort)
+: > seeded/RESULTS.txt.new
 for id in $ids; do
   d=seeded/$id; [ -f $d/patch.diff ] || continue
   prop=${id%%-*}
   props="$prop $(python3 -c "import json;print(' '.join(json.load(open('$d/meta.json')).get('also_check',[])))")"
-  if ! git -C /repo apply /verif/$d/patch.diff 2>/dev/null; then echo "$id apply-failed (the stored patch no longer applies to /repo HEAD)" | tee -a seeded/RESULTS.txt.new; continue; fi
+  git -C "$W" checkout -q -- . 
+  if ! git -C "$W" apply /verif/$d/patch.diff 2>/dev/null; then echo "$id apply-failed (the stored patch no longer applies to /repo HEAD)" | tee -a seeded/RESULTS.txt.new; continue; fi
   for p in $props; do
-    ./check $p > /tmp/seeded_$id.log 2>&1; rc=$?
-    line=$(grep -m1 "VIOLATION\|UNDECIDED" /tmp/seeded_$id.log | cut -c1-220)
+    PGVERIF_REPO="$W" PGVERIF_EVIDENCE_DIR="$E" ./check $p > "$E/$id.log" 2>&1; rc=$?
+    line=$(grep -m1 "VIOLATION\|UNDECIDED" "$E/$id.log" | cut -c1-220)
     echo "$id check=$p rc=$rc $line" | tee -a seeded/RESULTS.txt.new
   done
-  git -C /repo checkout -- .
-  rm -f /tmp/seeded_$id.log
 done
-mv seeded/RESULTS.txt.new seeded/RESULTS.txt
-# the runs above rewrote evidence files from a changed tree: refresh them from the clean tree
-for p in $(ls evidence | sed 's/.json//'); do ./check $p > /dev/null 2>&1 || echo "WARNING: ./check $p is not clean on the unchanged tree"; done
+if [ -n "$*" ] && [ -f seeded/RESULTS.txt ]; then
+  # partial run: keep the lines of the ids that were not re-run
+  for id in $ids; do grep -v "^$id " seeded/RESULTS.txt > seeded/RESULTS.txt.keep; mv seeded/RESULTS.txt.keep seeded/RESULTS.txt; done
+  cat seeded/RESULTS.txt seeded/RESULTS.txt.new | sort > seeded/RESULTS.txt.keep; mv seeded/RESULTS.txt.keep seeded/RESULTS.txt; rm -f seeded/RESULTS.txt.new
+else
+  mv seeded/RESULTS.txt.new seeded/RESULTS.txt
+fi
+git -C /repo worktree remove --force "$W"; git -C /repo worktree prune
+rm -rf "$E"
